@@ -75,7 +75,7 @@ def _count_assignments(fn):
 class Scanner:
     def __init__(self, fn, hooks=(), bind_params=None):
         self.fn = fn
-        self.tr = Translator(hooks=[self._hook] + list(hooks))
+        self.tr = Translator(hooks=list(hooks) + [self._hook])
         self.accesses = []
         self.calls = []
         self.loops = []
@@ -86,6 +86,9 @@ class Scanner:
         self.noncanonical_loops = []
         self.opaque = set()
         self.in_loop_decls = set()
+        # aggregate types whose brace-initialised assignment is split into per-field stores
+        # (field order is asserted against the class facts by the rules that rely on it)
+        self.agg_fields = {"vfps::SourceMap::hi": ["index", "weight"], "hi": ["index", "weight"]}
         if bind_params:
             for p in fn["params"]:
                 if p["name"] in bind_params:
@@ -274,9 +277,16 @@ class Scanner:
             self._loads(rhs)
             if idx is not None:
                 self._loads_in_indices(lnode)
-            val = self._try(rhs)
             g, l = self._ctx()
-            self.accesses.append(Access("store", base, idx, path, n, n["line"], g, l, n["op"], val, rhs, lnode))
+            agg = A.strip(rhs, casts=False)
+            if agg["k"] == "InitListExpr" and n["op"] == "=" and \
+                    len(agg.get("inits", [])) == len(self.agg_fields.get(agg.get("type", ""), [])):
+                for fname, ini in zip(self.agg_fields[agg["type"]], agg["inits"]):
+                    self.accesses.append(Access("store", base, idx, path + "." + fname, n, n["line"], g, l, "=",
+                                                self._try(ini), ini, lnode))
+            else:
+                val = self._try(rhs)
+                self.accesses.append(Access("store", base, idx, path, n, n["line"], g, l, n["op"], val, rhs, lnode))
             self._call(n)
             return
         if k == "UnaryOperator" and n["op"] in ("++", "--"):
